@@ -1,5 +1,6 @@
 import Lean.Data.Json
 import RaftVerif.Model.Repl
+import RaftVerif.Model.ReplProbe
 import Driver.Node
 open Lean Raft
 
@@ -7,12 +8,27 @@ namespace Driver.Repl
 open Driver.Node
 
 deriving instance FromJson, ToJson for Repl.State, Repl.Note
+deriving instance FromJson, ToJson for Repl.Follower, Repl.Resp, Repl.Upd, Repl.Tick
 
 def outJson (o : Repl.Out) : Json :=
   Json.mkObj [("st", toJson o.st), ("err", Json.str o.err), ("panic", Json.str o.panic),
     ("append", match o.append with | some a => toJson a | none => Json.null),
     ("install", match o.install with | some a => toJson a | none => Json.null),
     ("notes", toJson o.notes)]
+
+def optJson {α} [ToJson α] : Option α → Json
+  | some a => toJson a
+  | none => Json.null
+
+def exchJson (x : Repl.Exch) : Json :=
+  Json.mkObj [("kind", Json.str x.kind), ("pipelined", Json.bool x.pipelined), ("st", toJson x.st),
+    ("append", optJson x.append), ("install", optJson x.install), ("resp", toJson x.resp)]
+
+/-- the whole run of `replicate()` as compared by the engine probelive -/
+def runJson (r : Repl.PR) : Json :=
+  Json.mkObj [("trace", Json.arr (r.loop.trace.map exchJson).toArray), ("st", toJson r.loop.st),
+    ("flr", toJson r.loop.flr), ("err", Json.str r.err), ("panic", Json.str r.panic),
+    ("notes", toJson r.loop.notes), ("ending", Json.str r.ending)]
 
 def handleE (j : Json) : Except String Json := do
   let what ← j.getObjValAs? String "what"
@@ -37,6 +53,18 @@ def handleE (j : Json) : Except String Json := do
     let id ← getNat j "follower"
     let voter := if withCfg then some (ldr.configs.latest.get id).voter else none
     pure (outJson (Repl.onLeaderUpdate st ldr.ldr.removeLTE ldr.lastLogIndex ldr.commitIndex voter))
+  | "probe" => do
+    -- the real replicate() loop: leader digest (after everything the leader did during the run), follower,
+    -- ticks (leader updates delivered / follower faults per exchange), fuel for the outer loop
+    let ldr ← j.getObjValAs? Raft.Node "leader"
+    let env : Repl.Env := { log := ldr.log, snapIndex := ldr.snapIndex, snapTerm := ldr.snapTerm,
+                            snap := ldr.snapsDisk.find? (·.index == ldr.snapIndex) }
+    let flr ← j.getObjValAs? Repl.Follower "flr"
+    let ticks ← j.getObjValAs? (List Repl.Tick) "ticks"
+    let fuel ← getNat j "fuel"
+    -- a leader update an earlier run left in the channel
+    let pending ← j.getObjValAs? (Option Repl.Upd) "pending"
+    pure (runJson (Repl.replicate env fuel { st := st, flr := flr, ticks := ticks, pending := pending }))
   | w => throw s!"unknown repl request {w}"
 
 def handle (j : Json) : Json :=
